@@ -398,7 +398,7 @@ func (m *instMonitor) afterEvent() {
 							pw += m.power(id)
 						}
 					}
-					if gpbft.IsStrongQuorum(pw, d.pt.ScaledTotal) {
+					if indepStrong(pw, d.pt.ScaledTotal) {
 						want = pre
 						break
 					}
@@ -431,11 +431,11 @@ func (m *instMonitor) afterEvent() {
 						support += m.power(id)
 					}
 				}
-				if gpbft.IsStrongQuorum(support, d.pt.ScaledTotal) {
+				if indepStrong(support, d.pt.ScaledTotal) {
 					m.viol("it never commits bottom while holding a strong PREPARE quorum for its proposal", "c07-commit-bottom-with-quorum", fmt.Sprintf("round %d proposal %s", r, pv))
 				}
 				timeout := time.Duration(d.p.VerifPhaseTimeout(r, false))
-				possible := gpbft.IsStrongQuorum(support+d.pt.ScaledTotal-voted, d.pt.ScaledTotal)
+				possible := indepStrong(support+d.pt.ScaledTotal-voted, d.pt.ScaledTotal)
 				if d.now.Before(m.prepAt[r].Add(timeout)) && possible {
 					m.viol("it never commits bottom before the PREPARE timeout unless that quorum has become impossible", "c07-commit-bottom-early",
 						fmt.Sprintf("round %d proposal %s support %d voted %d of %d at %v (PREPARE began %v, timeout %v)", r, pv, support, voted, d.pt.ScaledTotal, d.now.Sub(d.t0), m.prepAt[r].Sub(d.t0), timeout))
